@@ -527,20 +527,21 @@ pub fn builtin_binary_get<E: Effect>(
                         )));
                     };
 
-                    // Read all bytes we need
-                    let mut value = 0u64;
+                    // Read all bytes we need. An unaligned window of more than 56 bits spans
+                    // nine bytes (72 bits), so accumulate in 128 bits.
+                    let mut window = 0u128;
                     let bytes_to_read = last_byte_needed - byte_offset;
 
                     for i in 0..bytes_to_read {
-                        value =
-                            (value << 8) | (binary_data.byte_at(byte_offset + i).unwrap() as u64);
+                        window = (window << 8)
+                            | (binary_data.byte_at(byte_offset + i).unwrap() as u128);
                     }
 
                     // Shift to align our bits to the right
                     let bits_read = bytes_to_read * 8;
                     let bits_after = bits_read - bit_offset - num_bits;
 
-                    value >>= bits_after;
+                    window >>= bits_after;
 
                     // Mask to keep only the bits we want
                     let mask = if num_bits == 64 {
@@ -548,7 +549,7 @@ pub fn builtin_binary_get<E: Effect>(
                     } else {
                         (1u64 << num_bits) - 1
                     };
-                    value &= mask;
+                    let value = (window as u64) & mask;
 
                     Ok(BuiltinResult::Value(Value::Integer(BigInt::from(value))))
                 }
